@@ -14,6 +14,10 @@ func c17(tier string) int {
 		{Family: "dirs", Params: "depth=4,limits=7.101,roots=1.2,layouts=one"},
 		{Family: "dirs", Params: "depth=3,limits=7,roots=1.2,layouts=two.both"},
 		{Family: "dirs", Params: "depth=4,limits=7,roots=1,layouts=one,prelude=DG"},
+		// roots spelled non-canonically in the configuration (trailing slash; a "." element as in the
+		// documented default "./testStorage"): what the cleaner re-registers must still match (S132)
+		{Family: "dirs", Params: "depth=3,limits=7,roots=1.2,layouts=one.two,spell=1"},
+		{Family: "dirs", Params: "depth=3,limits=7,roots=1,layouts=one.two,spell=2"},
 	}
 	if tier == "thorough" {
 		plans = []enum.Plan{
@@ -22,9 +26,11 @@ func c17(tier string) int {
 			{Family: "dirs", Params: "depth=5,limits=7,roots=1.2,layouts=one,prelude=DG"},
 			{Family: "dirs", Params: "depth=4,limits=7,roots=1,layouts=one,prelude=NDG"},
 			{Family: "dirs", Params: "depth=3,limits=0.1.99.100,roots=1.2"},
+			{Family: "dirs", Params: "depth=4,limits=7,roots=1.2,spell=1"},
+			{Family: "dirs", Params: "depth=4,limits=7,roots=1.2,spell=2"},
 		}
 	}
 	return enumCheck("C17", tier, 180*time.Second, 20*time.Minute, plans,
-		"from seeded states (built through the public API) with limit-2, limit-1 and limit entries in the active directory (layouts: one directory; a second, full, rotated-out directory in the same root; one such directory in each of two roots; and the one-directory states after an in-session prelude of a deletion and a collection pass — what the running process remembers is part of the state), for 1 and 2 roots and configured limits that exercise the clamp: every history of the stated depth over Set-new (two shuffle orders), overwrite, delete, GC, reopen and root-restricted probes; after every step (at quiescence): every file directly inside <root>/<uuid>/, no directory above the limit; at the end: for each root a probe Set with only that root reporting free space must land under it, and every directory with room must receive the probe for some shuffle order",
+		"from seeded states (built through the public API) with limit-2, limit-1 and limit entries in the active directory (layouts: one directory; a second, full, rotated-out directory in the same root; one such directory in each of two roots; and the one-directory states after an in-session prelude of a deletion and a collection pass — what the running process remembers is part of the state; and with the roots spelled non-canonically in the configuration: a trailing slash, a \".\" element), for 1 and 2 roots and configured limits that exercise the clamp: every history of the stated depth over Set-new (two shuffle orders), overwrite, delete, GC, reopen and root-restricted probes; after every step (at quiescence): every file directly inside <root>/<uuid>/, no directory above the limit; at the end: for each root a probe Set with only that root reporting free space must land under it, and every directory with room must receive the probe for some shuffle order",
 		[]string{"operations issued one at a time (the statement's own restriction); free space comes from the disk shim's table; shuffle orders are dictated by the harness"})
 }
